@@ -405,6 +405,14 @@ def elementText (cond : Bool) (s : List Char) : Option (List Char) :=
     if c = '<' then some [] else
     (if cond then decodeCond s else decodeKeep '<' s).map (fun t => if t.all isXmlWS then [] else t)
 
+/-- `TiXmlDocument::LoadFile` end-of-line normalisation (XML 1.0 §2.11), applied to the whole file before parsing:
+`\r\n` and a lone `\r` both become `\n` -/
+def normalizeNL : List Char → List Char
+  | [] => []
+  | '\r' :: '\n' :: r => '\n' :: normalizeNL r
+  | '\r' :: r => '\n' :: normalizeNL r
+  | c :: r => c :: normalizeNL r
+
 /-- what a text value becomes after `write` then `read` -/
 def textRoundTrip (cond : Bool) (t : List Char) : Option (List Char) :=
   elementText cond (encode true cond t ++ "</t>".toList)
@@ -413,6 +421,12 @@ def textRoundTrip (cond : Bool) (t : List Char) : Option (List Char) :=
 first raw quote character; attribute values always keep their white space) -/
 def attrRoundTrip (cond : Bool) (v : List Char) : Option (List Char) :=
   decodeKeep '"' (encode false cond v ++ "\" />".toList)
+
+/-- text / attribute value after `writeToFile` then `readFromFile` (same encoder, then the end-of-line normalisation) -/
+def textRoundTripFile (cond : Bool) (t : List Char) : Option (List Char) :=
+  elementText cond (normalizeNL (encode true cond t ++ "</t>".toList))
+def attrRoundTripFile (cond : Bool) (v : List Char) : Option (List Char) :=
+  decodeKeep '"' (normalizeNL (encode false cond v ++ "\" />".toList))
 
 /-- the documented effect of condensing on a text value -/
 def condense (s : List Char) : List Char :=
